@@ -769,6 +769,8 @@ def wf_judge(case, res):
         # extender ignores the engine's success flag, so such a path is accepted with an end inside — recorded
         # as an observation by the caller, not judged
         pass
+    elif acc and case.get("sce", case["sc"]) != case["sc"]:
+        pass    # start_cond argument ≠ ens_set["start_cond"]: not reachable through select_shoot; model comparison only
     elif acc:
         why = []
         if len(ops) < 3:
@@ -780,7 +782,7 @@ def wf_judge(case, res):
                 why.append(f"ends inside at {ops[-1]}")
             if not all(l <= x <= r for x in ops[1:-1]):
                 why.append("interior frame outside")
-            if not (min(ops) < m <= max(ops)) and not (l == m and min(ops) <= m <= max(ops)):
+            if set(sc) != {"L", "R"} and not (min(ops) < m <= max(ops)) and not (l == m and min(ops) <= m <= max(ops)):
                 why.append(f"does not cross {m}")
             if len(ops) > case["ML"]:
                 why.append(f"length {len(ops)} > maxlength {case['ML']}")
@@ -790,8 +792,17 @@ def wf_judge(case, res):
             # the weight that counts is the own-ensemble entry of calc_cv_vector (what run_md stores in
             # path.weights); the `weight` attribute is written but never read anywhere (and is lost when
             # subt_acceptance reverses the path)
+            # judged for the ensembles wire fencing is used in (start condition L, argument = ens_set entry) and for
+            # paths in generic position: a frame exactly ON the cap interface counts as inside for add_to_path
+            # (`> right`) but as outside for the weight (`>= right`), a measure-zero boundary case for real order
+            # parameters that is recorded by the caller as an observation
+            capv = r if case.get("cap") is None else case["cap"]
+            generic = all(x != capv for x in ops)
             if not res["cv"][1]:
-                why.append(f"zero weight in its own ensemble: cv={res['cv']}")
+                if sc == ("L",) and case.get("sce", case["sc"]) == case["sc"] and generic:
+                    why.append(f"zero weight in its own ensemble: cv={res['cv']}")
+                else:
+                    res["zero_weight_boundary"] = True
         if why:
             bad.append(("C09:wf:accepted-path-not-in-ensemble", "; ".join(why)))
     else:
@@ -933,12 +944,19 @@ def gen_wf_cases(ctx):
         if rng.random() < 0.01:
             intf = [r, m, l]
         c = r if cap is None else cap
-        L = rng.randint(2, 14)
-        x = rng.choice((-1, -1, -1, r + 1, rng.randint(-1, r + 1)))
-        old = []
-        for _ in range(L):
+        if rng.random() < 0.25:                       # arbitrary sequences
+            L = rng.randint(2, 14)
+            x = rng.choice((-1, -1, -1, r + 1, rng.randint(-1, r + 1)))
+            old = []
+            for _ in range(L):
+                old.append(x)
+                x = max(-1, min(r + 1, x + rng.choice((-2, -1, -1, 0, 1, 1, 1, 2))))
+        else:                                          # a path of the ensemble: from below l through [l, r]
+            old, x = [-1], 0
+            while 0 <= x <= r and len(old) < 16:
+                old.append(x)
+                x += rng.choice((-1, 0, 1, 1, 1) if len(old) < 5 else (-1, -1, 0, 1))
             old.append(x)
-            x = max(-1, min(r + 1, x + rng.choice((-2, -1, -1, 0, 1, 1, 1, 2))))
         ML = rng.choice((100, 100, rng.randint(3, 14), rng.randint(0, 30)))
         nj = rng.choice((None, 1, 2, 2, 3, 0))
         sc = rng.choice(("L", "L", "L", "R", "LR"))
@@ -955,7 +973,7 @@ def gen_wf_cases(ctx):
         jumps = []
         for _ in range(max(3, (nj or 2))):
             kick = rng.randint(m, max(m, c - 1)) if rng.random() < 0.93 else rng.randint(min(m, c) - 1, max(m, c) + 1)
-            jumps.append({"kick": kick, "back": walk(kick, m, c, 7, (-1, -1, 0, 1)), "forw": walk(kick, m, c, 7, (-1, 0, 1, 1))})
+            jumps.append({"kick": kick, "back": walk(kick, m, c, 7, (-1, -1, -1, 0, 1)), "forw": walk(kick, m, c, 7, (-1, 0, 1, 1, 1))})
         eb = walk(rng.randint(l, r), l, r, 9, (-1, -1, -1, 0, 1))
         ef = walk(rng.randint(l, r), l, r, 9, (-1, 0, 1, 1, 1))
         case = {"old": old, "oto": rng.randint(-5, 5), "ld": rng.random() < 0.2, "intf": intf, "cap": cap, "ML": ML, "nj": nj,
@@ -983,6 +1001,8 @@ def wf_tie(ctx, have_model):
             n_rewrite += 1
         if res.get("allowmax_set"):
             n_allow += 1
+        if res.get("zero_weight_boundary"):
+            ctx.hit("observation:wf-accepted-with-zero-weight (frame exactly on the cap interface, or start_cond not L)")
         if res.get("ran_out_ext") and res.get("acc"):
             ctx.hit("observation:wf-accepted-although-an-extender-stream-ended-early (extender ignores the success flag)")
         if res["status"] == "ACC":
